@@ -265,7 +265,8 @@ struct Br<nop::Optional<E>> {
     if (!v.u) { x.clear(); return; }
     E e{};
     Br<E>::from(v.kids[0], e);
-    x = std::move(e);
+    // in-place construction: for E = Optional<U> a plain assignment would pick the converting Optional<U>&& overload
+    x = T(nop::InPlace{}, std::move(e));
   }
 };
 
